@@ -367,13 +367,18 @@ Record program := mkProgram {
 
 (* ------------------------------------------------------------------ semantics of the value operations *)
 
+(* errors a value operation can report: by construction never "unassigned register" *)
+Inductive semerr := SType (what : N) | SUnsupported (what : N) | SInternal (what : N).
+Definition err_of (e : semerr) : error :=
+  match e with SType n => EType n | SUnsupported n => EUnsupported n | SInternal n => EInternal n end.
+
 Inductive ores :=
 | ROk (v : value) (h : heap)
 | RPanic (k : Z)
-| RErr (e : error).
+| RErr (e : semerr).
 
 Definition unit_val : value := VAgg [].
-Definition et (n : N) : ores := RErr (EType n).
+Definition et (n : N) : ores := RErr (SType n).
 
 Definition bool_of (c : comparison) (op : binop) : bool :=
   match op, c with
@@ -479,7 +484,7 @@ Definition sem_convert (from to : ckind) (a : value) (h : heap) : ores :=
     | Some vs => match ints_of vs with Some zs => ROk (VStr (flat_map utf8_encode zs)) h | None => et 9 end
     | None => et 10
     end
-  | _, _, _ => RErr (EUnsupported 1)
+  | _, _, _ => RErr (SUnsupported 1)
   end.
 
 Definition in_types (t : N) (tys : list N) : bool := existsb (N.eqb t) tys.
@@ -521,7 +526,7 @@ Definition sem_typeswitch (conds : list (bool * list N)) (zeros : list value) (x
     match tswitch_find conds x 0 with
     | Some (i, v) => match updN zeros (Z.to_N i) v with
                      | Some vs => ROk (VAgg (VInt i :: vs ++ [x])) h
-                     | None => RErr (EInternal 1)
+                     | None => RErr (SInternal 1)
                      end
     | None => ROk (VAgg (VInt (-1) :: zeros ++ [x])) h
     end
@@ -545,7 +550,7 @@ Definition sem_indexaddr (k : seqkind) (x i : value) (h : heap) : ores :=
   match k, x, i with
   | SqSlice, VSlice base off len _, VInt i =>
     if in_range i len then
-      match base with Some a => ROk (VPtr (Some (elem_addr a (off + Z.to_N i)))) h | None => RErr (EInternal 2) end
+      match base with Some a => ROk (VPtr (Some (elem_addr a (off + Z.to_N i)))) h | None => RErr (SInternal 2) end
     else RPanic pk_index
   | SqArrayPtr n, VPtr None, VInt _ => RPanic pk_nil
   | SqArrayPtr n, VPtr (Some a), VInt i =>
@@ -556,10 +561,10 @@ Definition sem_indexaddr (k : seqkind) (x i : value) (h : heap) : ores :=
 Definition sem_index (k : seqkind) (x i : value) (h : heap) : ores :=
   match k, x, i with
   | SqArray n, VAgg vs, VInt i =>
-    if in_range i n then match nthN vs (Z.to_N i) with Some v => ROk v h | None => RErr (EInternal 3) end
+    if in_range i n then match nthN vs (Z.to_N i) with Some v => ROk v h | None => RErr (SInternal 3) end
     else RPanic pk_index
   | SqString, VStr s, VInt i =>
-    if in_range i (lenN s) then match nthN s (Z.to_N i) with Some b => ROk (VInt (Z.of_N b)) h | None => RErr (EInternal 4) end
+    if in_range i (lenN s) then match nthN s (Z.to_N i) with Some b => ROk (VInt (Z.of_N b)) h | None => RErr (SInternal 4) end
     else RPanic pk_index
   | _, _, _ => et 14
   end.
@@ -644,16 +649,16 @@ Definition sem_builtin (b : builtin) (vs : list value) (h : heap) : ores :=
         match base with
         | Some a => match hstore_run h a (off + len) ts with
                     | Some h' => ROk (VSlice base off (len + n) cap) h'
-                    | None => RErr (EInternal 5)
+                    | None => RErr (SInternal 5)
                     end
-        | None => RErr (EInternal 6)
+        | None => RErr (SInternal 6)
         end
       else
         (* growth: a new backing array of exactly the needed length (the Go runtime may reserve more;
            programs in the differential never observe spare capacity obtained by growth) *)
         match slice_elems h (VSlice base off len cap) with
         | Some old => new_slice h (old ++ ts) (len + n) zero
-        | None => RErr (EInternal 7)
+        | None => RErr (SInternal 7)
         end
     end
   | BCopy fromstr, [VSlice dbase doff dlen _; t] =>
@@ -667,9 +672,9 @@ Definition sem_builtin (b : builtin) (vs : list value) (h : heap) : ores :=
       match dbase with
       | Some a => match hstore_run h a doff (firstnN (N.to_nat n) ts) with
                   | Some h' => ROk (VInt (Z.of_N n)) h'
-                  | None => RErr (EInternal 8)
+                  | None => RErr (SInternal 8)
                   end
-      | None => RErr (EInternal 9)
+      | None => RErr (SInternal 9)
       end
     end
   | BMin (KInt _), VInt x :: r =>
@@ -680,7 +685,7 @@ Definition sem_builtin (b : builtin) (vs : list value) (h : heap) : ores :=
   | BDelete, [VMap (Some m); k] =>
     match PM.find m (maps h) with
     | Some kv => ROk unit_val (set_map h m (map_del kv k))
-    | None => RErr (EInternal 10)
+    | None => RErr (SInternal 10)
     end
   | BClearMap, [VMap None] => ROk unit_val h
   | BClearMap, [VMap (Some m)] => ROk unit_val (set_map h m [])
@@ -688,11 +693,11 @@ Definition sem_builtin (b : builtin) (vs : list value) (h : heap) : ores :=
   | BClearSlice zero, [VSlice (Some a) off len _] =>
     match hstore_run h a off (repeatN zero (N.to_nat len)) with
     | Some h' => ROk unit_val h'
-    | None => RErr (EInternal 11)
+    | None => RErr (SInternal 11)
     end
   | BWrapNilChk, VPtr None :: _ => RPanic pk_nil
   | BWrapNilChk, VPtr (Some a) :: _ => ROk (VPtr (Some a)) h
-  | _, _ => RErr (EUnsupported 2)
+  | _, _ => RErr (SUnsupported 2)
   end.
 
 (* iterators are heap cells:  string: VAgg [VStr s; VInt pos];  map: VAgg [VAgg keys; VInt pos; VMap m] *)
@@ -703,7 +708,7 @@ Definition sem_range (k : seqkind) (x : value) (h : heap) : ores :=
   | SqMap, VMap (Some m) =>
     match PM.find m (maps h) with
     | Some kv => let '(c, h') := alloc_cell h (VAgg [VAgg (map fst kv); VInt 0; x]) in ROk (VPtr (Some (c, []))) h'
-    | None => RErr (EInternal 12)
+    | None => RErr (SInternal 12)
     end
   | _, _ => et 25
   end.
@@ -719,7 +724,7 @@ Definition sem_next (isstr : bool) (it : value) (h : heap) : ores :=
       | _ => let '(r, w) := utf8_decode rest in
              match hstore h a (VAgg [VStr s; VInt (pos + Z.of_N w)]) with
              | Some h' => ROk (VAgg [VBool true; VInt pos; VInt r]) h'
-             | None => RErr (EInternal 13)
+             | None => RErr (SInternal 13)
              end
       end
     | Some (VAgg [VAgg keys; VInt pos; VMap mo]) =>
@@ -731,7 +736,7 @@ Definition sem_next (isstr : bool) (it : value) (h : heap) : ores :=
          | k :: r => match map_find kv k with
                      | Some v => match hstore h a (VAgg [VAgg keys; VInt (pos + 1); VMap mo]) with
                                  | Some h' => ROk (VAgg [VBool true; k; v]) h'
-                                 | None => RErr (EInternal 14)
+                                 | None => RErr (SInternal 14)
                                  end
                      | None => go r (pos + 1)
                      end
@@ -747,9 +752,9 @@ Definition sem_op (op : opcode) (vs : list value) (h : heap) : ores :=
   match op, vs with
   | OpAlloc _ zero, [] => let '(c, h') := alloc_cell h zero in ROk (VPtr (Some (c, []))) h'
   | OpLoad, [VPtr None] => RPanic pk_nil
-  | OpLoad, [VPtr (Some a)] => match hload h a with Some v => ROk v h | None => RErr (EInternal 15) end
+  | OpLoad, [VPtr (Some a)] => match hload h a with Some v => ROk v h | None => RErr (SInternal 15) end
   | OpStore, [VPtr None; _] => RPanic pk_nil
-  | OpStore, [VPtr (Some a); v] => match hstore h a v with Some h' => ROk unit_val h' | None => RErr (EInternal 16) end
+  | OpStore, [VPtr (Some a); v] => match hstore h a v with Some h' => ROk unit_val h' | None => RErr (SInternal 16) end
   | OpNop, _ => ROk unit_val h
   | OpBin op k yk, [a; b] => sem_bin op k yk a b h
   | OpUn op k, [a] => sem_un op k a h
@@ -764,15 +769,15 @@ Definition sem_op (op : opcode) (vs : list value) (h : heap) : ores :=
     if (0 <=? len) && (len <=? cap) && (cap <? 65536)
     then let '(c, h') := alloc_cell h (VAgg (repeatN zero (Z.to_nat cap))) in
          ROk (VSlice (Some (c, [])) 0 (Z.to_N len) (Z.to_N cap)) h'
-    else if (len <? 0) || (cap <? len) then RPanic pk_makeslice else RErr (EUnsupported 3)
+    else if (len <? 0) || (cap <? len) then RPanic pk_makeslice else RErr (SUnsupported 3)
   | OpSlice k lo hi mx, _ => sem_slice k lo hi mx vs h
   | OpFieldAddr f, [VPtr None] => RPanic pk_nil
   | OpFieldAddr f, [VPtr (Some a)] => ROk (VPtr (Some (elem_addr a f))) h
-  | OpField f, [VAgg fs] => match nthN fs f with Some v => ROk v h | None => RErr (EInternal 17) end
+  | OpField f, [VAgg fs] => match nthN fs f with Some v => ROk v h | None => RErr (SInternal 17) end
   | OpIndexAddr k, [x; i] => sem_indexaddr k x i h
   | OpIndex k, [x; i] => sem_index k x i h
   | OpStringLookup, [x; i] => sem_index SqString x i h
-  | OpExtract i, [VAgg fs] => match nthN fs i with Some v => ROk v h | None => RErr (EInternal 18) end
+  | OpExtract i, [VAgg fs] => match nthN fs i with Some v => ROk v h | None => RErr (SInternal 18) end
   | OpComposite, _ => ROk (VAgg vs) h
   | OpBuiltin b, _ => sem_builtin b vs h
   | OpRange k, [x] => sem_range k x h
@@ -788,18 +793,18 @@ Definition sem_op (op : opcode) (vs : list value) (h : heap) : ores :=
   | OpMapUpdate, [VMap (Some m); k; v] =>
     match PM.find m (maps h) with
     | Some kv => ROk unit_val (set_map h m (map_set kv k v))
-    | None => RErr (EInternal 19)
+    | None => RErr (SInternal 19)
     end
   | OpSliceToArrayPtr n, [VSlice base off len _] =>
     if N.ltb len n then RPanic pk_conv
     else match base with
          | None => ROk (VPtr None) h
-         | Some a => if N.eqb off 0 then ROk (VPtr (Some a)) h else RErr (EUnsupported 4)
+         | Some a => if N.eqb off 0 then ROk (VPtr (Some a)) h else RErr (SUnsupported 4)
          end
   | OpSliceToArray n, [VSlice base off len cap] =>
     if N.ltb len n then RPanic pk_conv
-    else match slice_elems h (VSlice base off n cap) with Some es => ROk (VAgg es) h | None => RErr (EInternal 20) end
-  | OpUnsupported w, _ => RErr (EUnsupported w)
+    else match slice_elems h (VSlice base off n cap) with Some es => ROk (VAgg es) h | None => RErr (SInternal 20) end
+  | OpUnsupported w, _ => RErr (SUnsupported w)
   | _, _ => et 28
   end.
 
@@ -1055,6 +1060,30 @@ Fixpoint eval_opt_operands (e : env) (os : list (option operand)) : list (option
                    end
   end.
 
+(* a value operation of the top frame fr (operands already evaluated to vs); code = rest of the block *)
+Definition step_op (st : state) (fr : frame) (rest : list frame) (d : option positive) (op : opcode)
+           (vs : list value) (code : list instr) : sres :=
+  match op, d with
+  | OpAlloc false zero, Some r =>
+    (* local alloc: the same cell of the frame, re-initialised *)
+    match PM.find r (f_locals fr) with
+    | Some c =>
+      let h' := set_cell (st_heap st) c zero in
+      Next (mkState (with_code fr code (PM.add r (VPtr (Some (c, []))) (f_env fr)) :: rest) h' (st_trace st))
+    | None =>
+      let '(c, h') := alloc_cell (st_heap st) zero in
+      let fr' := mkFrame (f_fn fr) (f_blk fr) code (PM.add r (VPtr (Some (c, []))) (f_env fr))
+                         (PM.add r c (f_locals fr)) (f_defers fr) false (f_panic fr) (f_unwinding fr) in
+      Next (mkState (fr' :: rest) h' (st_trace st))
+    end
+  | _, _ =>
+    match sem_op op vs (st_heap st) with
+    | ROk v h' => Next (mkState (with_code fr code (set_dst (f_env fr) d v) :: rest) h' (st_trace st))
+    | RPanic k => raise st fr rest (rt_panic_value k)
+    | RErr e => Final (Stuck (err_of e))
+    end
+  end.
+
 Definition step (p : program) (st : state) : sres :=
   match st_stack st with
   | [] => Final (Stuck (EInternal 32))
@@ -1101,27 +1130,7 @@ Definition step (p : program) (st : state) : sres :=
         | IOp d op args =>
           match eval_operands (f_env fr) args with
           | inr e => Final (Stuck e)
-          | inl vs =>
-            match op, d with
-            | OpAlloc false zero, Some r =>
-              (* local alloc: the same cell of the frame, re-initialised *)
-              match PM.find r (f_locals fr) with
-              | Some c =>
-                let h' := set_cell (st_heap st) c zero in
-                Next (mkState (with_code fr code (PM.add r (VPtr (Some (c, []))) (f_env fr)) :: rest) h' (st_trace st))
-              | None =>
-                let '(c, h') := alloc_cell (st_heap st) zero in
-                let fr' := mkFrame (f_fn fr) (f_blk fr) code (PM.add r (VPtr (Some (c, []))) (f_env fr))
-                                   (PM.add r c (f_locals fr)) (f_defers fr) false (f_panic fr) (f_unwinding fr) in
-                Next (mkState (fr' :: rest) h' (st_trace st))
-              end
-            | _, _ =>
-              match sem_op op vs (st_heap st) with
-              | ROk v h' => Next (mkState (with_code fr code (set_dst (f_env fr) d v) :: rest) h' (st_trace st))
-              | RPanic k => raise st fr rest (rt_panic_value k)
-              | RErr e => Final (Stuck e)
-              end
-            end
+          | inl vs => step_op st fr rest d op vs code
           end
         | IPhi _ _ => Final (Stuck (EInternal 36))     (* phis are consumed by the incoming edge *)
         | ICall d m args =>
@@ -1215,6 +1224,16 @@ Fixpoint run (fuel : nat) (p : program) (st : state) : outcome :=
            end
   end.
 
+(* the same machine, also counting the steps taken *)
+Fixpoint run_steps (fuel : nat) (p : program) (st : state) (acc : N) : outcome * N :=
+  match fuel with
+  | O => (OutOfFuel, acc)
+  | S k => match step p st with
+           | Final o => (o, N.succ acc)
+           | Next st' => run_steps k p st' (N.succ acc)
+           end
+  end.
+
 (* initial state: call function f with argument values args in heap h *)
 Definition init_state (p : program) (f : N) (args : list value) (h : heap) : state + error :=
   match enter p f [] args with
@@ -1227,4 +1246,10 @@ Definition exec (fuel : nat) (p : program) (f : N) (args : list value) (h : heap
   match init_state p f args h with
   | inl st => run fuel p st
   | inr e => Stuck e
+  end.
+
+Definition exec_steps (fuel : nat) (p : program) (f : N) (args : list value) (h : heap) : outcome * N :=
+  match init_state p f args h with
+  | inl st => run_steps fuel p st 0
+  | inr e => (Stuck e, 0%N)
   end.
